@@ -216,7 +216,19 @@ def generate(rng, size="small", force_tls=False, dummy_archives=False):
     g.dummy_archives = []
     if dummy_archives and rng.random() < 0.6:
         for k in range(rng.randint(1, 4)):
-            g.dummy_archives.append((rng.randrange(nobj), rng.randint(1, 3), rng.random() < 0.3))
+            # Half of them sit in front of the last object ("... libunused.a tail.o"), whose input
+            # group is then typically the last one to be activated.
+            before = nobj - 1 if rng.random() < 0.5 else rng.randrange(nobj)
+            g.dummy_archives.append((before, rng.randint(1, 3), rng.random() < 0.3))
+            if g.nsets:
+                # ... and the object behind the archive contributes to a start/stop set, so that
+                # part of it is reachable through __start_/__stop_ symbols only.
+                n = Node(len(g.nodes), before, "setmember")
+                n.set = rng.randrange(g.nsets)
+                n.name = f"m{n.idx}"
+                n.local = True
+                g.nodes.append(n)
+                by_obj[before].append(n.idx)
     g.params["dummy_archives"] = len(g.dummy_archives)
     return g
 
